@@ -1,10 +1,15 @@
 --------------------------- MODULE TraceMalformed ---------------------------
-(* [tid, fault, site, outcome]: outcome = class of the exception, or "db" if the parse returned *)
-EXTENDS Malformed, Json, IOUtils
+(* [tid, fault, site, outcome, probe, after]: outcome = class of the exception, or "db" if the parse returned;
+   after = projection of the database returned by the NEXT parse call in the same process, of the small document
+   `probe`: no fragment of a rejected document may leak into a later result either *)
+EXTENDS Malformed, Diff, Json, IOUtils
 Traces == ndJsonDeserialize(IOEnv.TRACE_FILE)
+ProbeExpected == ParseDoc(Traces[1].probe, FALSE)      \* the probe document is the same in every record
 Verdict(e) ==
   IF ~ProvablyInvalid(e.fault, e.site) THEN "out-of-domain"
-  ELSE IF Allowed(e.outcome) THEN ""
+  ELSE IF Allowed(e.outcome) THEN
+       (IF e.after = ProbeExpected THEN ""
+        ELSE "a fragment of the rejected document leaked into the next result: " \o ModelDiff(ProbeExpected, e.after))
   ELSE IF e.outcome = "db" THEN "malformed text accepted: " \o e.fault \o " in " \o e.site.ctx \o " at a " \o e.site.kind \o " line"
   ELSE "malformed text not answered with a syntax error but " \o e.outcome \o " (" \o e.fault \o ")"
 VARIABLE ti
